@@ -22,7 +22,7 @@ func properties() []Property {
 		{ID: "C01", Assumptions: []string{aSummaries, aModels, aE1, aE2, "receiver strings: both spellings of the orbiter address, a mixed-case spelling, other accounts, the blocked dust collector, empty, malformed, and an arbitrary 48-byte string; an arbitrary string other than a spelling of a known account is treated as undecodable", "'all prior histories' = arbitrary prior balances of the orbiter account, arbitrary escrow balance, arbitrary pause / parameter configuration (one inductive step)"},
 			Harnesses: []HarnessSpec{
 				{Name: "H_C01_receivers", Profile: "bit", Quick: b("rcvKinds", 8, "denomKinds", 4, "memoKinds", 2, "amountKinds", 3, "intKinds", 1, "fees", 0, "priors", 1, "pauses", 0, "ptMax", 0, "feeRcpKinds", 1, "faults", 0), Covers: []string{"error-ack", "success-ack", "success-ack-to-orbiter", "success-ack-to-someone-else"}},
-				{Name: "H_C01_payloads", Profile: "bit", Quick: b("rcvKinds", 2, "denomKinds", 1, "memoKinds", 6, "amountKinds", 1, "intKinds", 5, "fees", 1, "priors", 1, "pauses", 0, "ptMax", 0, "feeRcpKinds", 3, "faults", 0), Thorough: b("rcvKinds", 2, "denomKinds", 1, "memoKinds", 6, "amountKinds", 1, "intKinds", 5, "fees", 2, "priors", 1, "pauses", 1, "ptMax", 1, "feeRcpKinds", 3, "faults", 0), Covers: []string{"error-ack", "success-ack", "success-ack-to-orbiter"}},
+				{Name: "H_C01_payloads", Profile: "bit", Quick: b("rcvKinds", 2, "denomKinds", 1, "memoKinds", 6, "amountKinds", 1, "intKinds", 5, "fees", 1, "priors", 1, "pauses", 0, "ptMax", 0, "feeRcpKinds", 3, "faults", 0), Thorough: b("rcvKinds", 2, "denomKinds", 1, "memoKinds", 6, "amountKinds", 1, "intKinds", 5, "fees", 1, "priors", 1, "pauses", 1, "ptMax", 1, "feeRcpKinds", 3, "faults", 0), Covers: []string{"error-ack", "success-ack", "success-ack-to-orbiter"}},
 				{Name: "H_C01_faults", Profile: "bit", Quick: b("rcvKinds", 2, "denomKinds", 1, "memoKinds", 1, "amountKinds", 1, "intKinds", 2, "fees", 1, "priors", 1, "pauses", 0, "ptMax", 0, "feeRcpKinds", 2, "faults", 1), Covers: []string{"error-ack", "success-ack", "success-ack-to-orbiter"}},
 			}},
 		{ID: "C02", Assumptions: []string{aSummaries, aModels, aE1, aE5, "ledger = ten tracked accounts (orbiter, dust collector, users, fee recipients, escrow, CCTP / warp / transfer module accounts) x four denoms; 'interleavings with other transfers' are sequential histories, covered by starting from an arbitrary ledger"},
@@ -32,7 +32,7 @@ func properties() []Property {
 			}},
 		{ID: "C03", Assumptions: []string{aSummaries, aModels, aE1, "every fallible environment call (each bank send, the sweep, the ICS-20 application, the token query, each bridge request, each event emission) draws an independent failure bit, so all subsets of failures are covered; naturally occurring failures are the same bits of the respective model", "statistics failures are the documented exception (collections writes do not fail in the model)"},
 			Harnesses: []HarnessSpec{
-				{Name: "H_C03_faults", Profile: "bit", Quick: b("rcvKinds", 1, "denomKinds", 1, "memoKinds", 1, "amountKinds", 1, "intKinds", 2, "fees", 1, "priors", 1, "pauses", 0, "ptMax", 0, "feeRcpKinds", 2, "faults", 0), Thorough: b("rcvKinds", 2, "denomKinds", 1, "memoKinds", 1, "amountKinds", 1, "intKinds", 2, "fees", 2, "priors", 1, "pauses", 1, "ptMax", 0, "feeRcpKinds", 3, "faults", 0), Covers: []string{"some-step-failed", "error-ack", "success-ack", "success-ack-to-orbiter"}},
+				{Name: "H_C03_faults", Profile: "bit", Quick: b("rcvKinds", 1, "denomKinds", 1, "memoKinds", 1, "amountKinds", 1, "intKinds", 2, "fees", 1, "priors", 1, "pauses", 0, "ptMax", 0, "feeRcpKinds", 2, "faults", 0), Thorough: b("rcvKinds", 2, "denomKinds", 1, "memoKinds", 1, "amountKinds", 1, "intKinds", 2, "fees", 2, "priors", 1, "pauses", 0, "ptMax", 0, "feeRcpKinds", 2, "faults", 0), Covers: []string{"some-step-failed", "error-ack", "success-ack", "success-ack-to-orbiter"}},
 			}},
 		{ID: "C05", Assumptions: []string{aSummaries, aModels, "the transfer attributes are those after arbitrary pre-actions: source amount A, destination amount D with 0 < D <= A (both symbolic), orbiter balance exactly D", "byte fields are arbitrary byte slices of 0..bytes bytes (bytes = 33 = one past the only length Hyperlane accepts); hook metadata from {empty, 0x, valid hex, bad hex, no prefix, odd length}", "depinject.go wiring is outside the claim (the harness mirrors it with the exported constructors)"},
 			Harnesses: []HarnessSpec{
@@ -56,7 +56,7 @@ func properties() []Property {
 			}},
 		{ID: "C11", Assumptions: []string{aSummaries, aModels, aE1, "paired executions: the same drawn packet on two freshly wired modules whose states differ only in the coins already on the orbiter account (arbitrary amounts in the transferred denom and one other denom vs. none)", "bank send restrictions of other modules on the sweep are outside the claim"},
 			Harnesses: []HarnessSpec{
-				{Name: "H_C11_priors", Profile: "bit", Quick: b("rcvKinds", 2, "denomKinds", 1, "memoKinds", 1, "amountKinds", 1, "intKinds", 2, "fees", 1, "priors", 1, "pauses", 0, "ptMax", 1, "feeRcpKinds", 1, "faults", 0), Thorough: b("rcvKinds", 2, "denomKinds", 2, "memoKinds", 2, "amountKinds", 1, "intKinds", 4, "fees", 2, "priors", 1, "pauses", 1, "ptMax", 1, "feeRcpKinds", 1, "faults", 0), Covers: []string{"both-succeed", "both-refused"}},
+				{Name: "H_C11_priors", Profile: "bit", Quick: b("rcvKinds", 2, "denomKinds", 1, "memoKinds", 1, "amountKinds", 1, "intKinds", 2, "fees", 1, "priors", 1, "pauses", 0, "ptMax", 1, "feeRcpKinds", 1, "faults", 0), Thorough: b("rcvKinds", 2, "denomKinds", 2, "memoKinds", 1, "amountKinds", 1, "intKinds", 2, "fees", 2, "priors", 1, "pauses", 0, "ptMax", 1, "feeRcpKinds", 1, "faults", 0), Covers: []string{"both-succeed", "both-refused"}},
 			}},
 		{ID: "C04", Assumptions: []string{aSummaries, aModels, "math.NewIntFromString on a concrete string is computed with math/big (SetString base 0, 256-bit limit) exactly as cosmossdk.io/math does; fixed fee amounts are the decimal rendering of an arbitrary symbolic Int or one of a few non-numbers", "fee recipients are concrete strings (two valid accounts, possibly repeated, and malformed ones): bech32 decoding itself is the SDK's"},
 			Harnesses: []HarnessSpec{
@@ -66,14 +66,14 @@ func properties() []Property {
 			}},
 		{ID: "C08", Assumptions: []string{aSummaries, aModels, aE1, aE3, "pre-state: any subset of paused protocols and up to prePairs arbitrary paused pairs (one inductive step covers histories of any length)", "counterparty strings of at most strlen bytes; batches of 1..batch ids (empty batches pause the whole protocol and are outside the claim); probe domains < 1000"},
 			Harnesses: []HarnessSpec{
-				{Name: "H_C08_step", Profile: "bit", Quick: b("strlen", 1, "prePairs", 1, "batch", 2), Thorough: b("strlen", 2, "prePairs", 2, "batch", 3), Covers: []string{"pre-state-built", "message-accepted", "message-refused"}, TimeoutQuick: 240},
+				{Name: "H_C08_step", Profile: "bit", Quick: b("strlen", 1, "prePairs", 1, "batch", 2), Thorough: b("strlen", 2, "prePairs", 1, "batch", 2), Covers: []string{"pre-state-built", "message-accepted", "message-refused"}, TimeoutQuick: 240},
 				{Name: "H_C08_enforce", Profile: "bit", Quick: b("strlen", 2, "prePairs", 1), Thorough: b("strlen", 3, "prePairs", 2), Covers: []string{"pre-state-built", "probe-paused", "probe-not-paused"}},
-				{Name: "H_C08_history", Profile: "bit", Quick: b("strlen", 1, "steps", 2, "batch", 1), Thorough: b("strlen", 2, "steps", 3, "batch", 2), Covers: []string{"message-accepted", "message-refused", "probe-paused", "probe-not-paused"}, TimeoutQuick: 240},
+				{Name: "H_C08_history", Profile: "bit", Quick: b("strlen", 1, "steps", 2, "batch", 1), Thorough: b("strlen", 1, "steps", 3, "batch", 2), Covers: []string{"message-accepted", "message-refused", "probe-paused", "probe-not-paused"}, TimeoutQuick: 240},
 				{Name: "H_C08_batch_limit", Profile: "bit"},
 			}},
 		{ID: "C09", Assumptions: []string{aSummaries, aModels, aE1, "pre-state: any subset of {FEE, SWAP} paused; a recording stub controller is registered under ACTION_SWAP so that both identifiers are routable"},
 			Harnesses: []HarnessSpec{
-				{Name: "H_C09_actions", Profile: "bit", Quick: b("steps", 2), Thorough: b("steps", 4), Covers: []string{"message-accepted", "message-refused", "probe-with-paused-action", "probe-unaffected"}},
+				{Name: "H_C09_actions", Profile: "bit", Quick: b("steps", 2), Thorough: b("steps", 3), Covers: []string{"message-accepted", "message-refused", "probe-with-paused-action", "probe-unaffected"}},
 			}},
 		{ID: "C10", Assumptions: []string{aSummaries, aModels, "the servers are the ones keeper.RegisterMsgServers registers on a recording configurator", "signer: any string of at most signerlen bytes other than the authority's bech32 string in lower or upper case (both spellings denote the authority account)", "state unchanged = identical content of every orbiter collection (natively: identical key/value content of the orbiter store), no event, no bridge request, no bank movement"},
 			Harnesses: []HarnessSpec{
@@ -85,21 +85,21 @@ func properties() []Property {
 			}},
 		{ID: "C13", Assumptions: []string{aSummaries, aModels, aE3, "ledgers of up to entries entries written through the component's own setters (arbitrary totals incl. one-sided and zero entries, two sources, five destinations, two denoms), plus one entry for EVERY uint32 destination domain for the index-key derivation", "listings run on the CollectionPaginate summary with the REAL option and transform closures and the real index closures; page limits, offsets, next-keys, reverse and count-total are library code (query.CollectionPaginate / collections iterators) and are NOT decided — only the unpaged request (default page size 100) is"},
 			Harnesses: []HarnessSpec{
-				{Name: "H_C13_amounts", Profile: "bit", Quick: b("entries", 2, "srcs", 1, "doms", 1), Thorough: b("entries", 3, "srcs", 2, "doms", 2), Covers: []string{"ledger-built", "direct-lookup-hit", "direct-lookup-miss"}, TimeoutQuick: 300},
-				{Name: "H_C13_counts", Profile: "bit", Quick: b("entries", 2, "srcs", 2, "doms", 2), Thorough: b("entries", 3, "srcs", 2, "doms", 2), Covers: []string{"ledger-built", "direct-lookup-hit", "direct-lookup-miss"}, TimeoutQuick: 300},
+				{Name: "H_C13_amounts", Profile: "bit", Quick: b("entries", 2, "srcs", 1, "doms", 1), Thorough: b("entries", 2, "srcs", 2, "doms", 2), Covers: []string{"ledger-built", "direct-lookup-hit", "direct-lookup-miss"}, TimeoutQuick: 300},
+				{Name: "H_C13_counts", Profile: "bit", Quick: b("entries", 2, "srcs", 2, "doms", 2), Thorough: b("entries", 3, "srcs", 1, "doms", 1), Covers: []string{"ledger-built", "direct-lookup-hit", "direct-lookup-miss"}, TimeoutQuick: 300},
 				{Name: "H_C13_index_keys", Profile: "arith", Covers: []string{"stored"}},
 				{Name: "H_C13_paging", Profile: "bit", Quick: b("entries", 4, "limits", 3), Thorough: b("entries", 6, "limits", 7), Covers: []string{"ledger-built", "offset-page", "walk-finished"}},
 			}},
 		{ID: "C14", Assumptions: []string{aSummaries, aModels, "decoded payload shapes are built as Go values through the exported API (every pointer position nil or not, identifiers any int32, byte fields of any length up to the bound, integers and coins of any value; nil math.Int excluded because the Any round trip never yields one) and fed to the stages in the order the receive path calls them: Payload.Validate, the transfer hook, payload processing, and the dispatcher directly", "every instruction that can panic (nil dereference, index / slice bounds, slice-to-array conversion, division by zero, failed type assertion, nil map write, explicit panic) and every documented panic of a summarised library function (math.Int overflow, nil Int receiver, sdk.NewCoin / NewCoins on invalid input) is an obligation on every path", "panics inside the JSON / protobuf codecs and inside bech32 are outside the claim (summarised): e.g. \"fees_info\":[null] panics inside jsonpb before any orbiter code runs"},
 			Harnesses: []HarnessSpec{
-				{Name: "H_C14_action_shapes", Profile: "bit", Quick: b("actionShapes", 1, "fwdShapes", 0, "actions", 1, "feeEntries", 1, "bytes", 33, "symBytes", 0, "metaKinds", 4), Thorough: b("actionShapes", 1, "fwdShapes", 0, "actions", 2, "feeEntries", 2, "bytes", 33, "symBytes", 1, "metaKinds", 6), Covers: []string{"malformed-payload-refused", "payload-validated", "processed", "dispatcher-refused", "dispatched"}, TimeoutQuick: 300},
+				{Name: "H_C14_action_shapes", Profile: "bit", Quick: b("actionShapes", 1, "fwdShapes", 0, "actions", 1, "feeEntries", 1, "bytes", 33, "symBytes", 0, "metaKinds", 4), Thorough: b("actionShapes", 1, "fwdShapes", 0, "actions", 2, "feeEntries", 1, "bytes", 33, "symBytes", 1, "metaKinds", 6), Covers: []string{"malformed-payload-refused", "payload-validated", "processed", "dispatcher-refused", "dispatched"}, TimeoutQuick: 300},
 				{Name: "H_C14_forwarding_shapes", Profile: "bit", Quick: b("actionShapes", 0, "fwdShapes", 1, "actions", 0, "feeEntries", 0, "bytes", 33, "symBytes", 0, "metaKinds", 4), Thorough: b("actionShapes", 0, "fwdShapes", 1, "actions", 0, "feeEntries", 0, "bytes", 33, "symBytes", 1, "metaKinds", 6), Covers: []string{"malformed-payload-refused", "payload-validated", "processed", "dispatcher-refused", "dispatched"}, TimeoutQuick: 300},
 				{Name: "H_C14_packet_envelope", Profile: "bit", Quick: b("envelope", 1, "fields", 0, "chanlen", 10, "segments", 0, "seglen", 0), Thorough: b("envelope", 1, "fields", 0, "chanlen", 12, "segments", 0, "seglen", 0), Covers: []string{"success-ack", "error-ack"}, TimeoutQuick: 300},
-				{Name: "H_C14_packet_fields", Profile: "bit", Quick: b("envelope", 0, "fields", 1, "chanlen", 0, "segments", 3, "seglen", 1), Thorough: b("envelope", 0, "fields", 1, "chanlen", 0, "segments", 4, "seglen", 2), Covers: []string{"success-ack", "error-ack"}, TimeoutQuick: 300},
+				{Name: "H_C14_packet_fields", Profile: "bit", Quick: b("envelope", 0, "fields", 1, "chanlen", 0, "segments", 3, "seglen", 1), Thorough: b("envelope", 0, "fields", 1, "chanlen", 0, "segments", 4, "seglen", 1), Covers: []string{"success-ack", "error-ack"}, TimeoutQuick: 300},
 			}},
 		{ID: "C15", Assumptions: []string{aSummaries, "the JSON / protobuf codecs are summarised as an abstract encode / decode pair over blobs with decode(encode(x)) = x; concrete documents (not JSON, null, arrays, missing / null / scalar orbiter key, two root keys) go through the real encoding/json pre-check; unknown-field rejection, the type-URL registry, enum spelling and duplicated JSON keys are behaviour of ProtoCodec / jsonpb and are NOT decided", "the round trip and purity assertions are additionally executed natively with the real codec on every replayed path (trace validation)"},
 			Harnesses: []HarnessSpec{
-				{Name: "H_C15_validate", Profile: "bit", Quick: b("actionShapes", 1, "fwdShapes", 1, "actions", 1, "feeEntries", 0, "bytes", 2, "symBytes", 1, "metaKinds", 3), Thorough: b("actionShapes", 1, "fwdShapes", 1, "actions", 2, "feeEntries", 1, "bytes", 2, "symBytes", 1, "metaKinds", 3), Covers: []string{"accepted", "refused"}, TimeoutQuick: 300},
+				{Name: "H_C15_validate", Profile: "bit", Quick: b("actionShapes", 1, "fwdShapes", 1, "actions", 1, "feeEntries", 0, "bytes", 2, "symBytes", 1, "metaKinds", 3), Thorough: b("actionShapes", 1, "fwdShapes", 1, "actions", 2, "feeEntries", 0, "bytes", 2, "symBytes", 1, "metaKinds", 3), Covers: []string{"accepted", "refused"}, TimeoutQuick: 300},
 				{Name: "H_C15_ids", Profile: "bit", Covers: []string{"accepted", "refused"}},
 				{Name: "H_C15_parse", Profile: "bit", Covers: []string{"accepted", "refused", "constructor-refused"}},
 			}},
@@ -111,11 +111,11 @@ func properties() []Property {
 			}},
 		{ID: "C17", Assumptions: []string{aSummaries, aModels, aE3, "the collections summary includes the key codec's refusal of 0x00 in non-terminal string key components", "genesis lists of at most list / entries elements, counterparty strings of at most strlen bytes, protocol / action ids any int32; JSON (un)marshalling of the genesis document and module.go glue are outside the claim"},
 			Harnesses: []HarnessSpec{
-				{Name: "H_C17_forwarder", Profile: "bit", Quick: b("list", 2, "strlen", 2), Thorough: b("list", 3, "strlen", 3), Covers: []string{"genesis-rejected", "genesis-accepted", "genesis-initialised"}},
+				{Name: "H_C17_forwarder", Profile: "bit", Quick: b("list", 2, "strlen", 2), Thorough: b("list", 2, "strlen", 3), Covers: []string{"genesis-rejected", "genesis-accepted", "genesis-initialised"}},
 				{Name: "H_C17_executor", Profile: "bit", Quick: b("list", 3), Thorough: b("list", 4), Covers: []string{"genesis-rejected", "genesis-accepted", "genesis-initialised"}},
 				{Name: "H_C17_adapter", Profile: "bit", Covers: []string{"genesis-accepted", "genesis-initialised"}},
-				{Name: "H_C17_roundtrip", Profile: "bit", Quick: b("steps", 2, "strlen", 1), Thorough: b("steps", 3, "strlen", 2), Covers: []string{"re-initialised"}, TimeoutQuick: 300},
-				{Name: "H_C17_dispatcher", Profile: "bit", Quick: b("entries", 1, "strlen", 1, "denomlen", 3), Thorough: b("entries", 2, "strlen", 2, "denomlen", 4), TimeoutQuick: 300, Covers: []string{"genesis-rejected", "genesis-accepted", "genesis-initialised"}},
+				{Name: "H_C17_roundtrip", Profile: "bit", Quick: b("steps", 2, "strlen", 1), Thorough: b("steps", 2, "strlen", 2), Covers: []string{"re-initialised"}, TimeoutQuick: 300},
+				{Name: "H_C17_dispatcher", Profile: "bit", Quick: b("entries", 1, "strlen", 1, "denomlen", 3), Thorough: b("entries", 1, "strlen", 2, "denomlen", 4), TimeoutQuick: 300, Covers: []string{"genesis-rejected", "genesis-accepted", "genesis-initialised"}},
 			}},
 		{ID: "C18", Assumptions: []string{aSummaries, aModels, aE1, "the passthrough payload is an all-zero byte slice whose LENGTH is symbolic in [0, maxlen] (the hook reads only len)"},
 			Harnesses: []HarnessSpec{
